@@ -23,4 +23,10 @@ func collect() {
 	callsWithPrefix("s/quicswarm", "DefaultFingerprinter", "sha3", "fp_hash_quicswarm")
 	callsWithPrefix("s/p2pkeswarm", "DefaultFingerprinter", "x509", "fp_input_p2pkeswarm")
 	callsWithPrefix("s/quicswarm", "DefaultFingerprinter", "x509", "fp_input_quicswarm")
+
+	// C16: the two address regexps and how udpswarm joins / splits host and port
+	regexSource("s/sshswarm", "addrRe", "ssh_addr_re")
+	regexSource("s/multiswarm", "addrRe", "multi_addr_re")
+	methodCallsWithPrefix("s/udpswarm", "Addr", "String", "net", "udp_string_net_calls")
+	methodCallsWithPrefix("s/udpswarm", "Addr", "UnmarshalText", "net", "udp_unmarshal_net_calls")
 }
